@@ -6,10 +6,10 @@ HOOK_COMMITS = ["59391db"]
 
 CHECKS = {
  "C01": dict(tech="model-based stateful property testing (proptest): BDD operation histories vs. truth-table oracle",
-   text="Generated search: random builder configurations (order permutation, both ITE cache kinds incl. 1..16-slot lossy caches, tiny and default unique tables) x <=60-operation histories; every returned diagram is read back node by node into a 256-bit truth table and compared with the oracle value of the operation's definition; the whole pool is re-read at checkpoints and at the end. Histories include compile_cnf / compile_logical_expr / compile_plan / compile_cnf_with_assignments and operand lists of up to 80 entries; in a fifth of the cases the <=8 oracle variables are embedded at random positions of a builder with 9..200 variables (labels, levels and models beyond 64 and 128). Falsification only: no proof of absence; functions depend on <=8 variables.",
+   text="Generated search: random builder configurations (order permutation, both ITE cache kinds incl. 1..16-slot lossy caches, tiny and default unique tables) x <=60-operation histories; every returned diagram is read back node by node into a 256-bit truth table and compared with the oracle value of the operation's definition; the whole pool is re-read at checkpoints and at the end. Histories include compile_cnf / compile_logical_expr / compile_plan / compile_cnf_with_assignments and operand lists of up to 80 entries and dense functions drawn as whole truth tables (three histories in ten start from one or two of them: results above 64 nodes and cofactor-style operations on such operands occur a few hundred times per quick run; the evidence carries the size buckets); in a fifth of the cases the <=8 oracle variables are embedded at random positions of a builder with 9..200 variables (labels, levels and models beyond 64 and 128). Falsification only: no proof of absence; functions depend on <=8 variables.",
    note="Trusted: the harness's truth-table oracle and BddPtr walker (unit-tested against brute force); proptest RNG. Functions of <= 8 variables (in builders of up to 200), <= 60 ops.", ref="5/C01"),
  "C02": dict(tech="model-based property testing: canonicity map keyed by the truth table read off each diagram (both directions of the iff) + unique table driven against a key->address model with colliding hashes at small and mid sizes + default-capacity growth run",
-   text="Generated search in four layers: builder histories with 1..64-slot unique tables (pointer identity keyed by the walked truth table, inequality against every diagram of another function, shape walk, re-request of every node after growth; a fifth of the builders have 9..200 variables), the table itself against a key->address model under colliding hashes and repeated growth (<=40 keys), the table at 200..4000 keys with capacities 1..1024, and default-capacity builders pushed past the 131072-slot growth thresholds. Falsification only.",
+   text="Generated search in five layers: builder histories with 1..64-slot unique tables (pointer identity keyed by the walked truth table, inequality against every diagram of another function, shape walk, re-request of every node after growth; a fifth of the builders have 9..200 variables), the table itself against a key->address model under colliding hashes and repeated growth (<=40 keys), the table at 200..4000 keys with capacities 1..1024, default-capacity builders pushed past the 131072-slot growth thresholds, and builders over 9..20 variables holding diagrams of hundreds of nodes on which ten identities (commutativity, De Morgan, xor / ite by and/or, exists, compose, conditioning, Shannon, and_lst, iff) built by two routes must give one pointer and a reduced ordered shape. Falsification only.",
    note="Trusted: oracle truth tables, walker, hook capacity override (feature verif-hooks) which only changes the initial table size.", ref="5/C02"),
  "C06": dict(tech="property-based differential testing: top-down compiler (both node stores) vs. brute-force CNF truth table, plus metamorphic conditioning of results and their negations",
    text="Generated search: random CNFs (edge cases, repeated gadgets, contradiction cores that unit propagation alone does not refute) x random decision orders x both node stores; false constant iff unsatisfiable, walked truth table equals the CNF's, no path repeats a variable, conditioning of the result and of its negation equals the cofactor for every (variable, value), chained conditioning, further CNFs compiled in the same builders; a further sub-check compiles CNFs over 20..34 variables (thousands of cached components) and holds the result to the uniform measure of the bottom-up compilation of the same CNF and to evaluation on assignments. Falsification only; truth-table part n <= 7.",
@@ -18,37 +18,37 @@ CHECKS = {
    text="Generated search: BDDs from random histories under random orders (level-skipping at top/middle/bottom measured), every admissible n_s, arbitrary non-normalised integer weights and boundary residues: same truth table, every path tests exactly the order prefix, counts equal brute force exactly; smoothed results are smoothed again (same and longer prefixes). Falsification only; n <= 8.",
    note="Trusted: truth-table oracle, path walker, harness mulmod. Inputs respect smooth()'s documented precondition.", ref="5/C08"),
  "C09": dict(tech="model-based stateful property testing of the SAT solver: decide/pop histories vs. brute-force entailment, recorded-state model and fresh-solver differential",
-   text="Generated search: random CNFs x decide/pop histories; after every step soundness (entailment by brute force), conflict soundness, fixpoint (no falsified clause, no clause with exactly one unassigned literal), satisfied flag, exact undo of model/hash/flag/difference, hash=>residual, and agreement with a fresh solver replaying the surviving decisions; a further sub-check builds implication chains of up to 1000 variables (binary and ternary links, side clauses, closing clauses) and compares the solver after each decision with a naive fixpoint computation (one decision implying hundreds of literals). Falsification only; truth-table part n <= 6, <= 40 steps.",
+   text="Generated search: random CNFs x decide/pop histories; after every step soundness (entailment by brute force), conflict soundness, fixpoint (no falsified clause, no clause with exactly one unassigned literal), satisfied flag, exact undo of model/hash/flag/difference, hash=>residual, and agreement with a fresh solver replaying the surviving decisions; a further sub-check builds implication chains of up to 1000 variables (binary and ternary links, side clauses, closing clauses) and compares the solver after each decision with a naive fixpoint computation (one decision implying hundreds of literals); a third walks decide / pop histories on random CNFs over 12..80 variables against the same fixpoint oracle, with hash => residual over all states of a walk. Falsification only; truth-table part n <= 6, <= 40 steps.",
    note="Trusted: harness clause semantics and truth tables; model reconstructed from difference_iter. Hash clause asserted for all CNF sizes (a wrapped 128-bit product colliding is treated as a violation, probability ~2^-127 per pair). The solver's input is the Cnf object as read back through clauses().", ref="5/C09"),
  "C13": dict(tech="exhaustive enumeration of small carriers + property-based testing of algebraic laws against arbitrary-precision-safe reference arithmetic",
-   text="Complete enumeration of all triples of GF(2..13) and of the 8^3 boundary residues of every exported prime, plus generated triples (random 128-bit residues for all 7 primes; exact integers/dyadics for real, complex, expected utility; all Boolean triples; naturals for rational; polynomials of 0..32 coefficients over reals and three finite fields; real and complex triples also scaled by 2^-60 / 2^40 and with independently scaled components): every semiring law, reference modular arithmetic, ring subtraction, lattice laws. Exhaustive on the small carriers, falsification only elsewhere.",
+   text="Complete enumeration of all triples of GF(2..13) and of the 8^3 boundary residues of every exported prime (the list is generated from the library's src/constants.rs when the harness is built), plus generated triples (random 128-bit residues for all 7 primes; exact integers/dyadics for real, complex, expected utility; all Boolean triples; naturals for rational; polynomials of 0..32 coefficients over reals and three finite fields; real and complex triples also scaled by 2^-60 / 2^40 and with independently scaled components; expected utilities and reals with 30- and 44-bit operands at mixed scales): every semiring law, reference modular arithmetic, ring subtraction, lattice laws. Exhaustive on the small carriers, falsification only elsewhere.",
    note="Trusted: harness mulmod/addmod/submod and truncated convolution; f64 exactness of the chosen value sets.", ref="5/C13"),
  "C14": dict(tech="property-based testing of derived structures against definitions recomputed from the CNF / tree shape",
-   text="Generated search: random CNFs x four elimination orders for order/dtree/derived-vtree well-formedness (permutation, inverse maps, leaf clauses, vars, internal cutsets, vtree leaves; leaf cutsets and cutwidth recorded only); random vtrees (<=12 leaves, all shape families, non-contiguous labels) for in-order indices, subtree lookup, lca of all node pairs, prime relation from the shape (indices, labels, literals, decision nodes), variable count; LeastCommonAncestor on random binary trees for all index pairs; about 1 % of the cases use 17..150-leaf trees and 20..130-variable CNFs, and a sub-check of its own uses formulas over 130..1300 variables (sizes around 256 and 1024; min-fill up to 420 variables). Falsification only.",
+   text="Generated search: random CNFs x four elimination orders for order/dtree/derived-vtree well-formedness (permutation, inverse maps, leaf clauses, vars, internal cutsets, vtree leaves; leaf cutsets and cutwidth recorded only); random vtrees (<=12 leaves, all shape families, non-contiguous labels) for in-order indices, subtree lookup, lca of all node pairs, prime relation from the shape (indices, labels, literals, decision nodes), variable count; LeastCommonAncestor on random binary trees for all index pairs; about 1 % of the cases use 17..150-leaf trees and 20..130-variable CNFs, and a sub-check of its own uses formulas over 130..1300 variables (sizes around 256 and 1024; min-fill up to 420 variables; a vtree manager on the derived vtree, depth beyond 255 and 1023). Falsification only.",
    note="Trusted: harness set computations and in-order numbering. CNFs without clauses (dtree, FORCE) and with an empty clause (FORCE) excluded by construction and counted.", ref="5/C14"),
  "C15": dict(tech="property-based + model-based stateful testing of CNF utilities, partial models, variable sets and the residual hasher against set-theoretic models",
-   text="Generated search: clause lists incl. all edge cases for construction/eval/is_sat_partial/condition/exact brute-force counting (n = 0 included); stateful histories on PartialModel/VarSet vs Vec/BTreeSet models; push/decide/pop/hash histories of CnfHasher with residual-signature oracle in both directions (the converse for every pair of states whose prime products fit in 128 bits; there the hash value must factor into one distinct prime per residual literal occurrence); a sub-check of its own hashes formulas with 600..6000 literal occurrences in states whose open clauses lie 64..4096 occurrences apart. Falsification only.",
+   text="Generated search: clause lists incl. all edge cases for construction/eval/is_sat_partial/condition/exact brute-force counting (n = 0 included); stateful histories on PartialModel/VarSet vs Vec/BTreeSet models; push/decide/pop/hash histories of CnfHasher with residual-signature oracle in both directions (the converse for every pair of states whose prime products fit in 128 bits; there the hash value must factor into one distinct prime per residual literal occurrence); a sub-check of its own hashes formulas with 600..6000 literal occurrences in states whose open clauses lie 64..4096 occurrences apart, incl. clauses of 5..24 literals left open on up to 12 of them (a single clause's product beyond 2^64). Falsification only.",
    note="Trusted: harness evaluator and set models. hash compared only for assignments that falsify no clause and contain the decisions in effect.", ref="5/C15"),
  "C03": dict(tech="model-based stateful property testing (proptest): SDD operation histories vs. truth-table oracle over random vtrees",
    text="Generated search: random vtrees (all shape families, random leaf orders) x compression on/off x tiny/default unique tables x <=40-operation histories; every returned SDD is read element by element into a truth table and compared with the oracle; pool re-read at checkpoints and at the end; the four vtree relations of apply operands are measured from the shape. Histories include dense functions given by a whole random truth table (decision nodes with more than 20 elements occur); in one case of six the <=8 variables sit at random leaves of a vtree with 9..120 leaves (vtree indices beyond 64 and 128). Falsification only; functions of <= 8 variables (<= 4 without compression, where diagrams blow up).",
    note="Trusted: truth-table oracle and SddPtr walker. Uncompressed mode bounded to small inputs because the library's structural node comparison is exponential there (time is never a verdict).", ref="5/C03"),
  "C04": dict(tech="property-based testing of structural invariants with a vtree-shape oracle and a canonicity map keyed by truth table",
-   text="Generated search on the compressing builder (with a Rebuild-by-cubes op as an independent construction route and tiny unique tables): every reachable node is checked for non-false, disjoint, exhaustive primes, variable scoping against the harness's own in-order numbering of the vtree, distinct subs, trimming, and equal functions => pointer equality (results, rebuilds, negations); the first decision-node results are also conditioned on every literal and the cofactors held to the same checks; dense random truth tables give nodes with more than 20 elements; in one case of six the variables are embedded in a vtree with 9..120 leaves. Falsification only; functions of <= 8 variables.",
+   text="Generated search on the compressing builder (with a Rebuild-by-cubes op as an independent construction route and tiny unique tables): every reachable node is checked for non-false, disjoint, exhaustive primes, variable scoping against the harness's own in-order numbering of the vtree, distinct subs, trimming, and equal functions => pointer equality (results, rebuilds, negations); the first decision-node results are also conditioned on every literal and the cofactors held to the same checks; dense random truth tables give nodes with more than 20 elements; in one case of six the variables are embedded in a vtree with 9..120 leaves. A second sub-check needs no truth table: on vtrees over 9..26 variables (incl. a long chain left of the root, terms sharing a cube over it) identities built by two routes must be one pointer. Falsification only; node-level checks on functions of <= 8 variables.",
    note="Trusted: ShapeInfo (harness vtree numbering), walker, truth tables. Library predicates is_canonical etc. are only recorded.", ref="5/C04"),
  "C05": dict(tech="property-based differential testing: every bottom-up compilation route vs. the harness's own CNF / expression / plan evaluators",
    text="Generated search: CNFs (all edge cases) through BDD compile (random order, both caches), SDD compile (random and dtree-derived vtrees), dtree plans on both builders, compile-under-assignment vs compile-then-condition (pointer-equal + iterated cofactor); random expressions (7 constructors) and plans (8 constructors) on both builders. A further sub-check compiles CNFs over up to 200 variables (labels crossing 32/64/128) and reads the diagrams on sampled and clause-falsifying assignments. Falsification only; truth-table part <= 7 variables.",
    note="Trusted: harness evaluators and walkers. CNFs without clauses are not sent through DTree::from_cnf; FORCE not used with empty clauses.", ref="5/C05"),
  "C07": dict(tech="property-based differential testing of weighted counts across representations against exact brute-force semiring sums",
-   text="Generated search: a function (random truth table or CNF) as BDDs under 3 orders, SDDs under 2 vtrees (one uncompressed), regular and negated, an SDD from the hash-identified builder, plus both top-down stores (regular and negated); seven semirings with exactly representable normalised weights (all 7 exported primes with boundary residues, two larger Mersenne primes, polynomials truncated at 32 coefficients), each representation counted against the function read off the diagram: every count equals the brute-force sum over models; evaluate() equals the truth table on all assignments; arbitrary weights on canonical BDDs equal the order-aware Shannon sum. Falsification only; n <= 7.",
+   text="Generated search: a function (random truth table or CNF) as BDDs under 3 orders, SDDs under 2 vtrees (one uncompressed), regular and negated, an SDD from the hash-identified builder, plus both top-down stores (regular and negated); seven semirings with exactly representable normalised weights (all 7 exported primes with boundary residues, two larger Mersenne primes, polynomials truncated at 32 coefficients), each representation counted against the function read off the diagram: every count equals the brute-force sum over models; evaluate() equals the truth table on all assignments; arbitrary weights on canonical BDDs equal the order-aware Shannon sum. A second sub-check counts conjunctions / disjunctions of 3..8 small blocks scattered over 20..150 labels (BDD and SDD, regular and negated) against the product form of the blocks' brute-force counts, over three fields and the reals, and compares evaluate() with the harness's own walk. Falsification only; truth-table part n <= 7.",
    note="Trusted: harness brute force / order-aware count / mulmod / polynomial convolution; exactness of dyadic and small-integer f64 arithmetic.", ref="5/C07"),
  "C10": dict(tech="model-based stateful property testing: query histories vs. the same single query on a freshly built copy, with a scratch-slot invariant after every call",
-   text="Generated search: pools of diagrams sharing nodes (BDD builder; SDD builder and top-down d-DNNF) under histories of up to 26 queries of 19 (BDD) / 21 (SDD, top-down) kinds with forced repetitions, diagrams produced by smooth / condition / exists joining the pool; top-down diagrams and their negations are conditioned through the store that owns them (standard and hash-identified); each answer must equal the answer of that single query on a freshly built copy in a new builder, and every reachable node must report an empty scratch slot after every public call (debug assertions compiled in). Falsification only.",
+   text="Generated search: pools of diagrams sharing nodes (BDD builder; SDD builder and top-down d-DNNF) under histories of up to 26 queries of 19 (BDD) / 21 (SDD, top-down) kinds with forced repetitions, diagrams produced by smooth / condition / exists joining the pool; top-down diagrams and their negations are conditioned through the store that owns them (standard and hash-identified); each answer must equal the answer of that single query on a freshly built copy in a new builder, and every reachable node must report an empty scratch slot after every public call (debug assertions compiled in); a further sub-check issues 66 000..140 000 queries on one builder against single queries on fresh copies. Falsification only.",
    note="Trusted: determinism of the library given identical construction histories; walker for diagram-valued answers.", ref="5/C10"),
  "C11": dict(tech="property-based testing of the semantic hash against its defining sum (own modular arithmetic) across representations, plus model-based histories of the hash-identified SDD builder",
-   text="Generated search: every representation of a function (BDD orders, vtrees, uncompressed SDD, top-down stores, hash-identified builders over the 64-bit field; several CNFs compiled and conditioned in one hash-identified top-down store, every earlier result re-read after each) hashes to the defining sum over models for three primes; negation = 1 - h; cached = recomputed (twice, after further operations, every internal node). Semantic SDD builder histories over the 64-bit field (three compression settings, stats() calls in between): results denote the oracle function, equal truth tables => eq for all pool pairs, cached hash of every entry = defining sum. Falsification only.",
+   text="Generated search: every representation of a function (BDD orders, vtrees, uncompressed SDD, top-down stores, hash-identified builders over the 64-bit field; several CNFs compiled and conditioned in one hash-identified top-down store, every earlier result re-read after each; all diagrams that store hands out are compared with each other: one function, one pointer, negation = complemented pointer) hashes to the defining sum over models for three primes; negation = 1 - h; cached = recomputed (twice, after further operations, every internal node). Semantic SDD builder histories over the 64-bit field (three compression settings, stats() calls in between): results denote the oracle function, equal truth tables => eq for all pool pairs, cached hash of every entry = defining sum. Falsification only.",
    note="Trusted: harness mulmod/brute force. A 2^-64 collision is treated as impossible; hash-identified builders are asserted over the 64-bit prime only (collisions are expected by design over the 20/29-bit primes).", ref="5/C11"),
  "C12": dict(tech="property-based testing of optimisation queries against exhaustive maximisation with exact dyadic arithmetic",
-   text="Generated search: functions over <= 6 variables under random orders; all query/decision subsets and orderings (empty, all, outside the support); marginal_map and bb<Real> vs. exhaustive maximum of the restricted weighted count; meu and bb<ExpectedUtility> vs. exhaustive maximum of the order-aware unsmoothed expected utility, in the stated weight domain built by construction; returned assignments must be complete and attain the optimum, and the returned pair must be the count under the returned assignment; num_vars = n..n+3; a fifth of the cases embed the function in a builder with up to 200 variables (query variables and models beyond 64 and 128); a third use weights down to 2^-15. Falsification only.",
+   text="Generated search: functions over <= 6 variables under random orders; all query/decision subsets and orderings (empty, all, outside the support); marginal_map and bb<Real> vs. exhaustive maximum of the restricted weighted count; meu and bb<ExpectedUtility> vs. exhaustive maximum of the order-aware unsmoothed expected utility, in the stated weight domain built by construction; returned assignments must be complete and attain the optimum, and the returned pair must be the count under the returned assignment; num_vars = n..n+3; a fifth of the cases embed the function in a builder with up to 200 variables (query variables and models beyond 64 and 128); a third use weights down to 2^-15; marginal_map / bb are also asked on the smoothed BDD and on the top-down compilation of the CNF source. Falsification only.",
    note="Trusted: harness brute force; exact dyadic f64. Ties accept any maximiser.", ref="5/C12"),
  "C16": dict(tech="model-based testing of the lossy cache against a last-write map, differential testing of builders across cache kinds/sizes, warm/cold differential for SDD caches",
    text="Generated search: Lru driven with colliding hashes at 1..16 slots, and at 2^10..2^13 slots filled to 0.8..2.2 times their size with re-insertions and colliding keys, vs 'last value per key' (hits counted); identical histories on cache-everything and lossy-cache BDD builders (1..16 slots) must give isomorphic canonical diagrams and the same equality relation; SDD operations re-issued warm must return the same pointer and results recomputed cold from their dependency cone in a fresh builder must be isomorphic; the hash-identified SDD builder's apply cache likewise (same function, judged equal). Falsification only.",
@@ -57,10 +57,10 @@ CHECKS = {
    text="Generated search: DIMACS text with arbitrary layout/comments/wrong header counts/empty clauses/missing final 0 parsed by both parsers and round-tripped through to_dimacs (labels up to 250, compared on assignments); s-expression text with random whitespace and names vs. AST evaluated by name under the lexicographic numbering; BDD/SDD/vtree JSON read by the harness's own reader vs. the truth table read off the in-memory object. Falsification only.",
    note="Trusted: harness text generators and JSON reader. Inputs restricted to what the third-party dimacs / serde_sexpr crates accept (probed empirically).", ref="5/C17"),
  "C18": dict(tech="model-based stateful differential testing of the C ABI (linked extern \"C\" symbols) in lock step with the native builder and the truth-table oracle",
-   text="Generated search: histories of <=40 C-API calls on one manager (three ways of constructing it) interleaved with eq/count/model-count/real/complex/polynomial counts/JSON, plus the one-shot wrappers (cnf_new, cnf_from_dimacs, min-fill order, dtree, vtree, compile, sdd, ddnnf); results are read through the C accessors only (texts handed out earlier are re-read before every later call) and compared with the native results of the same calls (differences between native results and the oracle are recorded, not reported: other properties own them). Falsification only.",
+   text="Generated search: histories of <=40 C-API calls on one manager (three ways of constructing it) interleaved with eq/count/model-count/real/complex/polynomial counts/JSON, plus the one-shot wrappers (cnf_new, cnf_from_dimacs, min-fill order, dtree, vtree, compile, sdd, ddnnf); results are read through the C accessors only (texts handed out earlier are re-read before every later call; sdd_wmc under three weight tables in turn, unnormalised ones included, on vtrees wider than the CNF) and compared with the native results of the same calls (differences between native results and the oracle are recorded, not reported: other properties own them). Falsification only.",
    note="Trusted: extern declarations mirror src/ffi signatures; rlib linking of #[no_mangle] symbols.", ref="5/C18"),
  "C19": dict(tech="property-based black-box testing of the command-line tools as subprocesses on generated files",
-   text="Generated search: formula/weights/config files for weighted_model_count (non-normalised dyadic weights, weight-only names sorting before, between and after the formula's names, missing weights, configured orders) compared exactly with brute-force counts; DIMACS and s-expression inputs for both converters, whose JSON output is read by the harness's reader. Falsification only; Every case runs against the dev-profile and the release-profile build of the tools; ~25 ms per process bounds the case count.",
+   text="Generated search: formula/weights/config files for weighted_model_count (non-normalised dyadic weights, weight-only names sorting before, between and after the formula's names, missing weights, configured orders, in a quarter of the cases one weight with 26 significant bits) compared exactly with brute-force counts; DIMACS and s-expression inputs for both converters, whose JSON output is read by the harness's reader. Falsification only; Every case runs against the dev-profile and the release-profile build of the tools; ~25 ms per process bounds the case count.",
    note="Trusted: stdout line format, f64 Display round trip, harness brute force and JSON reader. Tools rebuilt from /repo by run_check.sh.", ref="5/C19"),
 }
 
